@@ -176,6 +176,43 @@ def run(ctx, rep) -> None:
                               st_.file, c_.lineno, disc=f"cond-null:{st_.func.qualname}:{norm(k_) if k_ is not None else '?'}")
     rep.count(conditional_encoders=n_cond)
 
+    # ---- R2c: objects stored as JSON through their own to_dict()/from_dict() pair -------------------------------------------
+    # (MultiInstanceConfig -> mi_config column, Trigger -> trigger column, ...). to_dict must emit EVERY field unconditionally:
+    # a value-dependent omission (e.g. dropping falsy values) is read back as the field's default, which differs from what was saved
+    # whenever that default is truthy.
+    used = set()
+    for f_ in prog.all_functions():
+        if f_.module.name.startswith("stabilize.persistence"):
+            for c_ in ast.walk(f_.node):
+                if isinstance(c_, ast.Call) and isinstance(c_.func, ast.Attribute) and c_.func.attr == "from_dict" and isinstance(c_.func.value, ast.Name):
+                    used.add(c_.func.value.id)
+    n_pairs = 0
+    for m_ in prog.modules.values():
+        if not m_.name.startswith("stabilize.models"):
+            continue
+        for cname_, ci_ in m_.classes.items():
+            if cname_ not in used or "to_dict" not in ci_.methods or "from_dict" not in ci_.methods:
+                continue
+            n_pairs += 1
+            td_ = ci_.methods["to_dict"].node
+            flds_ = [norm(s_.target) for s_ in ci_.node.body if isinstance(s_, ast.AnnAssign)]
+            rets_ = [r_ for r_ in ast.walk(td_) if isinstance(r_, ast.Return) and r_.value is not None]
+            okd = False
+            why_ = "to_dict does not return a literal dict / asdict(self)"
+            if len(rets_) == 1:
+                v_ = rets_[0].value
+                if isinstance(v_, ast.Dict) and all(isinstance(k_, ast.Constant) for k_ in v_.keys):
+                    keys_ = {k_.value for k_ in v_.keys}
+                    missing_ = [f for f in flds_ if f not in keys_]
+                    okd = not missing_
+                    why_ = f"literal dict with every field ({len(keys_)} keys)" if okd else f"fields {missing_} are not emitted"
+                elif isinstance(v_, ast.Call) and norm(v_.func) in ("asdict", "dataclasses.asdict") and norm(v_.args[0]) == "self":
+                    okd, why_ = True, "asdict(self)"
+                elif isinstance(v_, (ast.DictComp,)) and v_.generators and v_.generators[0].ifs:
+                    why_ = f"`{norm(v_)[:90]}` omits entries depending on their VALUE: a field saved as False / 0 / '' / [] is read back as its default (from_dict), e.g. a False flag whose default is True comes back True"
+            rep.check(okd, "C19.R2", f"{cname_}.to_dict emits every field unconditionally", why_, m_.relpath, td_.lineno, disc=f"todict:{cname_}")
+    rep.floor("to_dict/from_dict pairs behind JSON columns", n_pairs, 2)
+
     # ---- R5 messages ------------------------------------------------------------------------------
     mm = prog.module("stabilize.queue.messages")
     reg = mm.assigns.get("MESSAGE_TYPES")
